@@ -523,7 +523,7 @@ fn gen_lan(r: &mut Rng, idx: usize, large: bool) -> Lan {
 fn gen_bytes(r: &mut Rng, maxlen: usize, nasty: bool) -> Vec<u8> {
     let len = if r.chance(0.1) { r.range(0, maxlen as u64) } else { r.range(1, 12.min(maxlen as u64)) } as usize;
     let special = [b'"', b'\\', 0u8, 0x1f, 0x7f, 0x80, 0xff, b'\n', b'\t', 0xc3, 0x28, b'{', b'}', b',', b'\''];
-    (0..len)
+    let mut v: Vec<u8> = (0..len)
         .map(|_| {
             if nasty && r.chance(0.4) {
                 *r.pick(&special)
@@ -533,7 +533,39 @@ fn gen_bytes(r: &mut Rng, maxlen: usize, nasty: bool) -> Vec<u8> {
                 b'a' + r.below(26) as u8
             }
         })
-        .collect()
+        .collect();
+    if nasty {
+        /* whole multi-octet sequences that text encoders treat specially: line and paragraph
+         * separators, NEL, BOM, a 4-octet character, a combining mark, and malformed UTF-8
+         * (overlong NUL, a surrogate half, a truncated sequence); own stream of draws */
+        let mut k = Rng::new(v.iter().fold(len as u64, |a, b| a.wrapping_mul(131).wrapping_add(*b as u64)), "multi-octet");
+        if k.chance(0.25) {
+            let corpus: [&[u8]; 12] = [
+                &[0xe2, 0x80, 0xa8],
+                &[0xe2, 0x80, 0xa9],
+                &[0xc2, 0x85],
+                &[0xef, 0xbb, 0xbf],
+                &[0xf0, 0x9f, 0x98, 0x80],
+                &[0x65, 0xcc, 0x81],
+                &[0xc3, 0xa9],
+                &[0xc0, 0x80],
+                &[0xed, 0xa0, 0x80],
+                &[0xe2, 0x80],
+                &[0xef, 0xbf, 0xbd],
+                b"\\u2028",
+            ];
+            for _ in 0..k.range(1, 2) {
+                let seq = *k.pick(&corpus);
+                let at = k.below(v.len() as u64 + 1) as usize;
+                if v.len() + seq.len() <= maxlen.max(seq.len()) {
+                    for (i, b) in seq.iter().enumerate() {
+                        v.insert(at + i, *b);
+                    }
+                }
+            }
+        }
+    }
+    v
 }
 
 fn gen_url(r: &mut Rng, long: bool) -> String {
@@ -603,6 +635,38 @@ fn decorate(r: &mut Rng, p: &mut PolicyM, depth: usize) {
             };
             if !p.apply_other.iter().any(|(k, _)| k == rule.0) {
                 p.apply_other.push((rule.0.to_string(), rule.1));
+            }
+        }
+    }
+    {
+        /* now and then a policy hands out three dozen options at once (own stream of draws) */
+        let mut k = Rng::new(r.clone().next_u64() ^ depth as u64, "kitchen-sink");
+        if depth == 0 && k.chance(0.08) {
+            let lists = [
+                "routers", "time-servers", "name-servers", "dns-servers", "log-servers", "quote-servers", "lpr-servers", "impress-servers", "rlp-servers", "nis-servers", "ntp-servers", "netbios-namesrv", "netbios-distsrv",
+                "xwindow-font-servers", "xwindow-display", "nisplus-servers", "home-agent-servers", "smtp-servers", "pop3-servers", "nntp-servers", "www-servers", "finger-servers", "irc-servers", "streettalk-servers", "stda-servers",
+            ];
+            let strings = ["domain-name", "root-path", "extension-file", "nis-domain", "netbios-scope", "nisplus-domain", "tz-rule", "tz-name", "wpad-url"];
+            let bools = ["forward", "source-route", "mtu-subnet", "mask-discovery", "mask-supplier", "router-discovery", "trailers", "ethernet", "tcp-keepalive-garbage", "autoconfig"];
+            let mut add = |name: &str, v: String| {
+                if !p.apply_other.iter().any(|(n, _)| n == name) {
+                    p.apply_other.push((name.to_string(), v));
+                }
+            };
+            for n in lists {
+                if k.chance(0.9) {
+                    add(n, format!("[192.0.2.{}]", k.range(1, 250)));
+                }
+            }
+            for n in strings {
+                if k.chance(0.9) {
+                    add(n, format!("\"{}-{}\"", n, k.range(1, 99)));
+                }
+            }
+            for n in bools {
+                if k.chance(0.9) {
+                    add(n, if k.chance(0.5) { "true".into() } else { "false".into() });
+                }
             }
         }
     }
@@ -725,6 +789,21 @@ pub fn gen_config(r: &mut Rng, lans: &[Lan], clients: &[ClientSpec], allow_polic
             let sub = PolicyM { match_other: vec![cond], apply_range: vec![(hs[a].into(), hs[b].into())], ..Default::default() };
             let at = k.below(outer.policies.len() as u64 + 1) as usize;
             outer.policies.insert(at, sub);
+        }
+        /* allow-lists: a range pool loses its match-subnet and serves only the machines its
+         * sub-policies name; everybody else on that LAN matches no pool at all */
+        for (li, lan) in lans.iter().enumerate() {
+            let net = Ipv4Addr::from(lan.network());
+            let listed: Vec<&ClientSpec> = clients.iter().filter(|c| c.lan == li && c.chaddr.len() == 6).collect();
+            for p in policies.iter_mut().filter(|p| p.match_subnet == Some((net, lan.plen)) && !p.apply_range.is_empty() && p.policies.is_empty() && p.match_other.is_empty()) {
+                if listed.is_empty() || !k.chance(0.3) {
+                    continue;
+                }
+                p.match_subnet = None;
+                for c in listed.iter().take(k.range(1, 2) as usize) {
+                    p.policies.push(PolicyM { match_chaddr: Some(c.chaddr.clone()), ..Default::default() });
+                }
+            }
         }
         /* the keys of some policies in another order (sub-policies before the addresses...) */
         fn reorder(p: &mut PolicyM, k: &mut Rng) {
@@ -1095,6 +1174,16 @@ pub fn generate(seed: u64, opts: &GenOpts) -> PlanA {
                 let n = r.range(0, 40) as usize;
                 param_list = r.bytes(n);
             }
+            {
+                /* a client that asks for everything there is */
+                let mut k = Rng::new(xid as u64 ^ seed, "msg-ask-everything");
+                if k.chance(0.12) {
+                    param_list = (1u8..=254).collect();
+                    if k.chance(0.5) {
+                        k.shuffle(&mut param_list);
+                    }
+                }
+            }
             let mut extra = vec![];
             if r.chance(0.15) {
                 extra.push((60u8, gen_bytes(&mut r, 40, false)));
@@ -1185,7 +1274,7 @@ pub fn generate(seed: u64, opts: &GenOpts) -> PlanA {
         for c in configs.iter_mut() {
             c.addresses.retain(|(a, l)| u32::from(*a) & mask(*l) != lan0.network());
             /* nothing else may match on this LAN (match-subnet may be written as a supernet) */
-            c.policies.retain(|p| p.match_subnet.map(|(n, l)| u32::from(n) & mask(l) != u32::from(lan0.server_ip) & mask(l)).unwrap_or(true));
+            c.policies.retain(|p| p.match_subnet.map(|(n, l)| u32::from(n) & mask(l) != u32::from(lan0.server_ip) & mask(l)).unwrap_or(false));
             c.addresses.push((Ipv4Addr::from(lan0.network()), lan0.plen));
             c.policies.push(PolicyM {
                 match_subnet: Some((Ipv4Addr::from(lan0.network()), lan0.plen)),
